@@ -8,5 +8,9 @@ fi
 /venv/bin/python -c "import hypothesis, mxlpy, sys; print('hypothesis', hypothesis.__version__, 'mxlpy', mxlpy.__file__)" || exit 2
 command -v node >/dev/null && echo "node $(node --version)" || echo "node missing (C07 TypeScript target will be reported as not executed)"
 command -v rustc >/dev/null && echo "$(rustc --version)" || echo "rustc missing (C07 Rust target will be reported as not executed)"
+# coverage-guided stage of the thorough tier (optional: without it that stage is skipped and says so)
+if ! PYTHONPATH=.deps /venv/bin/python -c "import atheris" 2>/dev/null; then
+  /venv/bin/pip install -q --no-index --find-links /opt/veriftools/wheels --target .deps atheris >/dev/null 2>&1 || echo "atheris not installable: coverage-guided stage will be skipped"
+fi
 mkdir -p evidence .work
 exit 0
